@@ -252,6 +252,8 @@ def simple(pid, level, sub, configs_quick, configs_thorough=None):
                 continue
             # the unoptimised `dev` build only confirms that ovf findings are real `cargo build` behaviour: small windows
             env_extra = {"VH_W": "3"} if c == "dev" else None
+            if pid == "C08" and tier == "thorough" and c != cfgs[0]:
+                env_extra = {"VH_DEPTH": "5"}  # depth 6 (2*10^8 histories) only in the main configuration
             results.append(run_engine(c, [sub, "--tier", tier], "%s-%s-%s" % (pid, tier, c), timeout=(900 if tier == "quick" else 6 * 3600), env_extra=env_extra))
         return finish(pid, tier, level, results, t0)
     return run
